@@ -3,4 +3,7 @@
 export GOFLAGS=-mod=mod GOPROXY=off GOSUMDB=off GOTOOLCHAIN=local
 export GOCACHE=/verif/.cache/go-build
 mkdir -p /verif/.bin /verif/.work /verif/evidence /verif/replays "$GOCACHE"
-cd /verif/mc && cp /repo/go.sum go.sum && go build -o /verif/.bin/mc.setup . && rm -f /verif/.bin/mc.setup
+(cd /verif/tools/genglobals && go build -o /verif/.bin/genglobals .) || exit 1
+cd /verif/mc && cp /repo/go.sum go.sum || exit 1
+/verif/.bin/genglobals /repo /verif/.work/setup.ov || exit 1
+go build -tags verifoverlay -overlay /verif/.work/setup.ov/overlay.json -o /verif/.bin/mc.setup . && go build -o /verif/.bin/mc.setup . && rm -rf /verif/.bin/mc.setup /verif/.work/setup.ov
